@@ -43,7 +43,7 @@ def fill(claim, not_yet):
           ENGINE_NOTE, "DESIGN.md §9 C06")
     claim("C07", "Lean 4 proof on the optimistic-locking model + SQL shapes regenerated from source; interleaving differential on the real store",
           "At most one write per base version succeeds; the final content is the fold of the successful modifications in commit order (both store_stage variants are all-or-nothing since fix F33); retry linearizes; upsert_task is a CAS. Also with every read call split into its SQL statements and other clients' committed writes between them (split_read_no_lost_update, split_read_write_fails_or_keeps): the version comes from the same statement as the fields it guards, so a write after a torn read fails its CAS or loses nothing; the variant that re-reads the version in a later statement provably loses an update (reread_version_loses_update). Every stage UPDATE in both store_stage implementations has version = :version in its WHERE and bumps the version, and no read-path function assigns or separately selects the version (decide over tables generated from the source).",
-          "Writers interleave at store-API-call granularity (SQLite single writer trusted); reads are split at every SQL statement of the seven read paths (retrieve_stage, retrieve, get_upstream/downstream/synthetic_stages, upstream / synthetic objects of retrieve_stage) with a complete committed write in between, on the real store. Auto-commit store_stage half-applied write was finding F33 (fixed).",
+          "Writers interleave at store-API-call granularity (SQLite single writer trusted); reads are split at every SQL statement of the seven read paths (retrieve_stage, retrieve, get_upstream/downstream/synthetic_stages, upstream / synthetic objects of retrieve_stage) with a complete committed write in between, on the real store; engine pairs (two upstream completions on one join stage, persistent signal vs RUNNING / SUCCEEDED task result, CancelStage vs CompleteTask) at every legal DB-call point under Mode B with row-history monitors and a store-call-log correspondence to the CasRow model. Auto-commit store_stage half-applied write was finding F33 (fixed).",
           "DESIGN.md §9 C07")
     claim("C08", "Lean 4 proof on the queue model (conservation, claim exclusivity, DLQ at limit) + per-op differential on the real SqliteQueue incl. crash points",
           "After any sequence of pushes, split/atomic polls, ack, reschedule, extend, expire, mature, DLQ moves, sweeps, replays and crashes at any commit, every pushed message is in exactly one of queue / DLQ / acknowledged; a claimed (id, version) is never claimed again; rows at the limit are never delivered and are moved unchanged; replay preserves the payload.",
